@@ -46,7 +46,32 @@ func c07Vocabulary() []vocabEntry {
 	return out
 }
 
-var c07Paths = []string{"registry", "jsonTop", "jsonNested", "jsonList", "jsonItemList", "gobTop", "gobNested", "gobList", "gobItemList"}
+var c07Paths = []string{"registry", "jsonTop", "jsonNested", "jsonList", "jsonItemList", "gobTop", "gobNested", "gobList", "gobItemList",
+	// the value next to a member whose type is outside the vocabulary, in an array held by an item position / at the top level
+	"jsonForeignSibling", "jsonTopForeign",
+	// the value without id and name, carrying only a property of its own family
+	"jsonAnonTop", "jsonAnonNested", "jsonAnonList"}
+
+// c07AnonDoc: a document of the given type name with no id and one property that belongs to the type's own
+// family (an activity's actor, a collection's totalItems, an actor's inbox, a link's href, an object's content)
+func c07AnonDoc(name string) string {
+	typ := ap.ActivityVocabularyType(name)
+	prop := `"content":"marker"`
+	switch {
+	case ap.ActivityTypes.Contains(typ) || ap.IntransitiveActivityTypes.Contains(typ) || name == "Activity" || name == "IntransitiveActivity":
+		prop = `"actor":"https://example.com/~actor"`
+	case ap.CollectionTypes.Contains(typ):
+		prop = `"totalItems":3`
+	case ap.ActorTypes.Contains(typ) || name == "Actor":
+		prop = `"inbox":"https://example.com/inbox"`
+	case ap.LinkTypes.Contains(typ):
+		prop = `"href":"https://example.com/href"`
+	}
+	if name == "" {
+		return "{" + prop + "}"
+	}
+	return fmt.Sprintf(`{"type":%q,%s}`, name, prop)
+}
 
 type c07Cell struct {
 	Name  string `json:"name"`
@@ -85,10 +110,16 @@ func withHooks(on bool, f func()) {
 	f()
 }
 
-// c07Pick: the member of a decoded list that is not the fixed second member
+// c07Pick: the member of a decoded list that is not the fixed second member (nor the member of a foreign type,
+// which has no id)
 func c07Pick(col ap.ItemCollection) ap.Item {
 	for _, m := range col {
-		if !ap.IsNil(m) && string(m.GetLink()) != "https://example.com/second" {
+		if !ap.IsNil(m) && string(m.GetLink()) == c07ID {
+			return m
+		}
+	}
+	for _, m := range col {
+		if !ap.IsNil(m) && string(m.GetLink()) != "https://example.com/second" && string(m.GetLink()) != "" {
 			return m
 		}
 	}
@@ -136,6 +167,46 @@ func c07Run(cell c07Cell) (goType string, idOK, markerOK bool, it ap.Item, pan s
 						it = c07Pick(*col)
 						return nil
 					})
+				}
+			case "jsonForeignSibling":
+				for _, docs := range []string{doc + `,{"type":"PropertyValue","name":"x","value":"y"}`, `{"type":"PropertyValue","name":"x","value":"y"},` + doc} {
+					outer, _ := ap.UnmarshalJSON([]byte(`{"id":"https://example.com/outer","type":"Create","object":[` + docs + `]}`))
+					it = nil
+					if a, ok := outer.(*ap.Activity); ok && !ap.IsNil(a.Object) {
+						if ap.IsItemCollection(a.Object) {
+							_ = ap.OnItemCollection(a.Object, func(col *ap.ItemCollection) error {
+								it = c07Pick(*col)
+								return nil
+							})
+						} else {
+							it = a.Object
+						}
+					}
+					if ap.IsNil(it) {
+						break // lost in this placement
+					}
+				}
+			case "jsonTopForeign":
+				outer, _ := ap.UnmarshalJSON([]byte(`[` + doc + `,{"type":"PropertyValue","name":"x","value":"y"}]`))
+				if ap.IsItemCollection(outer) {
+					_ = ap.OnItemCollection(outer, func(col *ap.ItemCollection) error {
+						it = c07Pick(*col)
+						return nil
+					})
+				} else {
+					it = outer
+				}
+			case "jsonAnonTop":
+				it, _ = ap.UnmarshalJSON([]byte(c07AnonDoc(cell.Name)))
+			case "jsonAnonNested":
+				outer, _ := ap.UnmarshalJSON([]byte(`{"id":"https://example.com/outer","type":"Create","object":` + c07AnonDoc(cell.Name) + `}`))
+				if a, ok := outer.(*ap.Activity); ok {
+					it = a.Object
+				}
+			case "jsonAnonList":
+				outer, _ := ap.UnmarshalJSON([]byte(`{"id":"https://example.com/outer","type":"Collection","items":[` + c07AnonDoc(cell.Name) + `,"https://example.com/an-iri"]}`))
+				if c, ok := outer.(*ap.Collection); ok && len(c.Items) > 0 && !ap.IsIRI(c.Items[0]) {
+					it = c.Items[0]
 				}
 			case "gobList", "gobItemList":
 				second := &ap.Object{ID: "https://example.com/second", Type: ap.NoteType}
@@ -186,7 +257,9 @@ func c07Run(cell c07Cell) (goType string, idOK, markerOK bool, it ap.Item, pan s
 	}
 	goType = goTypeOf(it)
 	idOK = string(it.GetLink()) == c07ID
-	if cell.Via != "registry" {
+	if strings.HasPrefix(cell.Via, "jsonAnon") {
+		idOK, markerOK = true, true // no id and no name in these documents: the type is what is judged
+	} else if cell.Via != "registry" {
 		sv := reflect.ValueOf(it)
 		if sv.Kind() == reflect.Ptr {
 			if f := sv.Elem().FieldByName("Name"); f.IsValid() {
@@ -267,7 +340,7 @@ func init() {
 			byName[voc[i].Name] = &voc[i]
 		}
 		extra := []string{"", "Foo", "note", "Emoji", "IRI", "ItemCollection"}
-		c.Rule = fmt.Sprintf("exhaustive: %d vocabulary names + %d other names (empty, unknown, wrong case, internal pseudo types) x 9 paths (registry, JSON top-level / nested in an item position / in a list property / in a list held by an item position, gob top-level / nested / in a list property / in a list held by an item position) x hooks unset/set (extending hooks that delegate to the defaults). Per cell: reflect type, id, marker property, family lists, IsObject/IsLink/IsCollection, family helper. Non-trivial = a vocabulary name.", len(names), len(extra))
+		c.Rule = fmt.Sprintf("exhaustive: %d vocabulary names + %d other names (empty, unknown, wrong case, internal pseudo types) x 14 paths (registry, JSON top-level / nested in an item position / in a list property / in a list held by an item position, gob top-level / nested / in a list property / in a list held by an item position, JSON next to a member of a type outside the vocabulary in an array in an item position (either order) and at the top level, JSON without id and name carrying only a property of the type's own family at top level / nested / in a list) x hooks unset/set (extending hooks that delegate to the defaults). Per cell: reflect type, id, marker property, family lists, IsObject/IsLink/IsCollection, family helper. Non-trivial = a vocabulary name.", len(names), len(extra))
 		for _, n := range append(append([]string{}, names...), extra...) {
 			for _, via := range c07Paths {
 				for _, hooks := range []bool{false, true} {
